@@ -1,4 +1,4 @@
-import C2paModel.Lemmas.C07Png
+import C2paModel.Lemmas.C07PngBox
 /-
 C12 — hash-binding layout maps are ordered, disjoint and cover the file.
 
@@ -7,16 +7,40 @@ ordered by offset, non-overlapping, within the file, and covers every byte of th
 the manifest container. The manifest region reported for data hashing lies within the file
 and never overlaps a non-manifest region.
 
-Layer A: `boxesA c` has one box per segment. `Tiles base l e` says the boxes of `l` are laid
-end to end from `base` to `e`; ordered / disjoint / inside / covering are consequences.
+This file has two clearly separated parts.
+
+**Specification part** (`boxesA`, `boxesFrom`, `Tiles`, `boxmap_wf`, `boxmap_cai_flags`,
+`box_bytes`). `boxesA c` is the *specification* map of a layer-A container `c`: what a correct
+box map looks like — one box per segment, *including* a box for data that trails the last
+structural element. `Tiles base l e` says the boxes of `l` are laid end to end from `base` to
+`e`; ordered / disjoint / inside / covering are consequences. These theorems say that the
+specification is consistent (such a map exists and has all four properties). They are **not**
+statements about the implementation: nothing in them mentions a handler's `get_box_map`.
+
+**Implementation part** (`png_boxmap_wf`, `png_boxmap_cover_iff`, `png_boxmap_partial`,
+`png_boxmap_covers_file_false`, `png_boxmap_c2pa_exact`, `png_boxmap_vs_spec`,
+`sidecar_boxmap`). These are about `Png.boxMap` / `Sidecar.boxMap`, the byte-exact models of
+`PngIO::get_box_map` / `C2paIO::get_box_map` (compared with the real code on every run by the
+differential harness), and hold for *all* byte lists. For PNG the result is: the map tiles
+`[0, end of IEND)`; it is ordered, non-overlapping and inside the file; it covers the whole
+file **iff** nothing follows IEND. The coverage clause of C12 is therefore *false* for the
+implementation as it is (`png_boxmap_covers_file_false`, open finding `boxmap-trailing-png`):
+bytes after IEND are in no box, so they are not bound by a box hash. `png_boxmap_vs_spec`
+states the exact difference between the implementation's map and the specification map: the
+box of the trailing data (and the zero-length excluded placeholder, which covers nothing).
 -/
 namespace C2pa.C07
+
+/-! ## the specification map `boxesA` (not tied to the implementation) -/
 
 /-- The boxes lie end to end from `base` to `e`. -/
 def Tiles : Nat → List Box → Nat → Prop
   | base, [], e => base = e
   | base, b :: rest, e => b.start = base ∧ Tiles (base + b.len) rest e
 
+/-- *Specification map only.* The specification boxes of a segment list tile
+`[base, base + |ser c|)`. Not a statement about any handler's `get_box_map`; for the
+implementation see `png_boxmap_wf`. -/
 theorem boxesFrom_tiles (base : Nat) (c : List Seg) :
     Tiles base (boxesFrom base c) (base + (ser c).length) := by
   induction c generalizing base with
@@ -65,8 +89,12 @@ theorem tiles_cover {base e : Nat} {l : List Box} (h : Tiles base l e) (j : Nat)
     · obtain ⟨b, hb, h1, h2⟩ := ih hr (by omega)
       exact ⟨b, List.mem_cons_of_mem _ hb, h1, h2⟩
 
-/-- **boxmap_wf**: the layer-A box list of any container is ordered, non-overlapping, inside
-the file and covers every byte. -/
+/-- **boxmap_wf** (*specification map only*): the specification map `boxesA c` — one box per
+segment of the container, trailing data included — is ordered, non-overlapping, inside the
+file and covers every byte. This shows that the C12 requirements are satisfiable by a map of
+this shape; it says nothing about what the implementation computes. The implementation's PNG
+map satisfies the first three clauses but not the fourth: `png_boxmap_partial`,
+`png_boxmap_covers_file_false`. -/
 theorem boxmap_wf (c : List Seg) :
     (boxesA c).Pairwise (fun a b => a.start + a.len ≤ b.start) ∧
     (∀ b ∈ boxesA c, b.start + b.len ≤ (ser c).length) ∧
@@ -76,31 +104,371 @@ theorem boxmap_wf (c : List Seg) :
   exact ⟨tiles_ordered h, fun b hb => ((tiles_inside h).2 b hb).2,
     fun j hj => tiles_cover h j ⟨Nat.zero_le _, hj⟩⟩
 
-/-- The boxes flagged as C2PA are exactly the manifest segments: same count, and (by
-`boxmap_wf`) no other box overlaps them, so the non-C2PA boxes cover everything but the
-manifest container. -/
+/-- *Specification map only.* In `boxesA` the boxes flagged as C2PA are exactly the manifest
+segments: same count, and (by `boxmap_wf`) no other box overlaps them, so the non-C2PA boxes
+cover everything but the manifest container. Which boxes the implementation flags is
+`png_boxmap_c2pa_exact`. -/
 theorem boxmap_cai_flags (base : Nat) (c : List Seg) :
     (boxesFrom base c).map (·.cai) = c.map isM := by
   induction c generalizing base with
   | nil => rfl
   | cons s rest ih => simp [boxesFrom, ih]
 
-/-- The byte range of the box of segment `i` is that segment's bytes. -/
+/-- *Specification map only.* The byte range of the specification box of a segment is that
+segment's bytes. -/
 theorem box_bytes (c : List Seg) (L R : List Seg) (m : Seg) (h : c = L ++ m :: R) :
     slice (ser c) (ser L).length m.raw.length = m.raw := by
   subst h
   rw [ser_append, ser_cons, ← List.append_assoc]
   exact slice_mid _ _ _
 
-/-- Data-hash side of the statement: the Cai region of a written asset is inside the file and
-the two `Other` regions do not overlap it (restated from the C08 development for layer A). -/
+/-! ## the implementation: `Png.boxMap` (byte-exact model of `PngIO::get_box_map`) -/
+
+/-- Tilings compose. -/
+theorem tiles_append {a m e : Nat} {l₁ l₂ : List Box} (h₁ : Tiles a l₁ m) (h₂ : Tiles m l₂ e) :
+    Tiles a (l₁ ++ l₂) e := by
+  induction l₁ generalizing a with
+  | nil => have : a = m := h₁; subst this; exact h₂
+  | cons x r ih => exact ⟨h₁.1, ih h₁.2⟩
+
+/-- The boxes of one chunk (its own box of length `length + 12`, possibly followed by the
+zero-length placeholder at its end) tile the chunk's byte range. -/
+theorem Png.boxOf_tiles (has : Bool) (c : Png.Chunk) : Tiles c.start (Png.boxOf has c) c.fin := by
+  unfold Png.boxOf
+  by_cases h1 : (c.name == Png.caBX) = true
+  · rw [if_pos h1]
+    exact ⟨rfl, by show c.start + (c.length + 12) = c.fin; simp [Png.Chunk.fin]; omega⟩
+  · rw [if_neg h1]
+    by_cases h2 : (!has && c.name == Png.IHDR) = true
+    · simp only [h2, if_true]
+      refine ⟨rfl, ?_, ?_⟩
+      · show c.fin = c.start + (c.length + 12); simp [Png.Chunk.fin]; omega
+      · show c.start + (c.length + 12) + 0 = c.fin; simp [Png.Chunk.fin]; omega
+    · simp only [h2]
+      exact ⟨rfl, by show c.start + (c.length + 12) = c.fin; simp [Png.Chunk.fin]; omega⟩
+
+/-- Chunks lying end to end from `pos` to `fin` give boxes lying end to end from `pos` to `fin`. -/
+theorem Png.chunkBoxes_tiles (b : Bytes) (has : Bool) : ∀ (ps : List Png.Chunk) (pos fin : Nat),
+    Png.ChunksTile b pos ps fin → Tiles pos (ps.flatMap (Png.boxOf has)) fin
+  | [], pos, fin, h => by have : pos = fin := h; subst this; exact rfl
+  | c :: r, pos, fin, h => by
+    obtain ⟨h1, _, h3⟩ := h
+    rw [List.flatMap_cons, ← h1]
+    exact tiles_append (Png.boxOf_tiles has c) (Png.chunkBoxes_tiles b has r _ _ h3)
+
+/-- The implementation's map tiles `[0, end of IEND)`. -/
+theorem png_boxmap_tiles (b : Bytes) (l : List Box) (ps : List Png.Chunk)
+    (h : Png.boxMap b = some l) (hc : Png.chunks b = some ps) : Tiles 0 l (Png.finOf ps) := by
+  rw [Png.boxMap_eq b ps hc] at h
+  injection h with h; subst h
+  obtain ⟨ht, _⟩ := Png.chunks_tile b ps hc
+  exact ⟨rfl, Png.chunkBoxes_tiles b _ ps _ _ ht⟩
+
+/-- **png_boxmap_wf** (implementation, all byte lists): whenever `get_box_map` succeeds, the
+chunk walk succeeded with some `ps`, and the returned list (PNGh box, one box per chunk, and
+the zero-length excluded C2PA placeholder after IHDR when there is no caBX chunk) tiles
+`[0, Png.finOf ps)` where `Png.finOf ps` is the end of IEND; hence it is ordered,
+non-overlapping and inside the file. Nothing is said about bytes from `Png.finOf ps` on:
+see `png_boxmap_cover_iff`. -/
+theorem png_boxmap_wf (b : Bytes) (l : List Box) (h : Png.boxMap b = some l) :
+    ∃ ps, Png.chunks b = some ps ∧ Tiles 0 l (Png.finOf ps) ∧ 8 < Png.finOf ps ∧
+      Png.finOf ps ≤ b.length ∧ l.Pairwise (fun x y => x.start + x.len ≤ y.start) ∧
+      (∀ x ∈ l, x.start + x.len ≤ b.length) := by
+  obtain ⟨ps, hc⟩ := Png.chunks_of_boxMap b l h
+  have ht := png_boxmap_tiles b l ps h hc
+  obtain ⟨_, h20, hf, _, _⟩ := Png.chunks_tile b ps hc
+  refine ⟨ps, hc, ht, by omega, hf, tiles_ordered ht, ?_⟩
+  intro x hx
+  have := ((tiles_inside ht).2 x hx).2
+  omega
+
+/-- **png_boxmap_cover_iff** (implementation, all byte lists): the map covers every byte of
+the file exactly when nothing follows IEND. -/
+theorem png_boxmap_cover_iff (b : Bytes) (l : List Box) (ps : List Png.Chunk)
+    (h : Png.boxMap b = some l) (hc : Png.chunks b = some ps) :
+    (∀ j, j < b.length → ∃ x ∈ l, x.start ≤ j ∧ j < x.start + x.len) ↔
+      b.drop (Png.finOf ps) = [] := by
+  have ht := png_boxmap_tiles b l ps h hc
+  obtain ⟨_, _, hf, _, _⟩ := Png.chunks_tile b ps hc
+  rw [List.drop_eq_nil_iff]
+  constructor
+  · intro hcov
+    apply Classical.byContradiction
+    intro hn
+    obtain ⟨x, hx, h1, h2⟩ := hcov (Png.finOf ps) (by omega)
+    have := ((tiles_inside ht).2 x hx).2
+    omega
+  · intro hle j hj
+    exact tiles_cover ht j ⟨Nat.zero_le _, by omega⟩
+
+/-- The full coverage clause of C12 for the PNG handler: every byte of every file that has a
+box map lies in some box. -/
+def PngBoxMapCoversFile : Prop :=
+  ∀ (b : Bytes) (l : List Box), Png.boxMap b = some l →
+    ∀ j, j < b.length → ∃ x ∈ l, x.start ≤ j ∧ j < x.start + x.len
+
+/-- The minimal PNG (signature, empty IHDR, empty IEND) followed by one byte: 33 bytes. -/
+def pngTrailingWitness : Bytes :=
+  Png.sig ++ Png.mkChunk Png.IHDR [] ++ Png.mkChunk Png.IEND [] ++ [0]
+
+set_option maxRecDepth 8192 in
+/-- The witness spelled out (the chunk CRCs are the real CRC-32 values). -/
+theorem pngTrailingWitness_eq : pngTrailingWitness =
+    [137, 80, 78, 71, 13, 10, 26, 10, 0, 0, 0, 0, 73, 72, 68, 82, 168, 161, 174, 10,
+     0, 0, 0, 0, 73, 69, 78, 68, 174, 66, 96, 130, 0] := by decide
+
+/-- The implementation's map of the witness ends at 32 = end of IEND. -/
+theorem pngTrailingWitness_boxMap :
+    Png.boxMap pngTrailingWitness = some
+      [⟨"PNGh", 0, 8, false, false⟩, ⟨"IHDR", 8, 12, false, false⟩,
+       ⟨"C2PA", 20, 0, true, true⟩, ⟨"IEND", 20, 12, false, false⟩] := by
+  rw [pngTrailingWitness_eq]; decide
+
+/-- **The coverage clause is false for the implementation as it is.** Witness: byte 32 of
+`pngTrailingWitness` (the byte after IEND) is in no box. The witness class (valid PNG + data
+after IEND) is replayed on the real `PngIO::get_box_map` by the harness generator's
+trailing-data variants; known open finding `boxmap-trailing-png`. -/
+theorem png_boxmap_covers_file_false : ¬ PngBoxMapCoversFile := by
+  intro h
+  exact absurd (h _ _ pngTrailingWitness_boxMap 32 (by rw [pngTrailingWitness_eq]; decide))
+    (by decide)
+
+/-- **What does hold for the implementation**: for every file with a box map, the map is
+ordered, non-overlapping, inside the file, covers every byte before the end of IEND — and
+covers no byte from the end of IEND on. -/
+theorem png_boxmap_partial (b : Bytes) (l : List Box) (ps : List Png.Chunk)
+    (h : Png.boxMap b = some l) (hc : Png.chunks b = some ps) :
+    l.Pairwise (fun x y => x.start ≤ y.start) ∧
+    l.Pairwise (fun x y => x.start + x.len ≤ y.start) ∧
+    (∀ x ∈ l, x.start + x.len ≤ b.length) ∧
+    Png.finOf ps ≤ b.length ∧
+    (∀ j, j < Png.finOf ps → ∃ x ∈ l, x.start ≤ j ∧ j < x.start + x.len) ∧
+    (∀ j, Png.finOf ps ≤ j → ¬ ∃ x ∈ l, x.start ≤ j ∧ j < x.start + x.len) := by
+  have ht := png_boxmap_tiles b l ps h hc
+  obtain ⟨_, _, hf, _, _⟩ := Png.chunks_tile b ps hc
+  have hin := (tiles_inside ht).2
+  refine ⟨(tiles_ordered ht).imp (fun hxy => by omega), tiles_ordered ht, ?_, hf,
+    fun j hj => tiles_cover ht j ⟨Nat.zero_le _, hj⟩, ?_⟩
+  · intro x hx; have := (hin x hx).2; omega
+  · rintro j hj ⟨x, hx, _, h2⟩
+    have := (hin x hx).2; omega
+
+/-- Specification boxes of the chunk segments = implementation boxes without the placeholder. -/
+theorem Png.chunkBoxes_spec (b : Bytes) (has : Bool) : ∀ (ps : List Png.Chunk) (pos fin : Nat),
+    Png.ChunksTile b pos ps fin →
+      boxesFrom pos (ps.map (Png.chunkSeg b)) = (ps.flatMap (Png.boxOf has)).filter (fun x => !x.excl) ∧
+      pos + (ser (ps.map (Png.chunkSeg b))).length = fin
+  | [], pos, fin, h => by have : pos = fin := h; subst this; simp [boxesFrom, ser]
+  | c :: r, pos, fin, h => by
+    obtain ⟨h1, h2, h3⟩ := h
+    obtain ⟨ih1, ih2⟩ := Png.chunkBoxes_spec b has r _ _ h3
+    have hl := Png.length_chunkSeg b c h2
+    have hf : pos + (c.length + 12) = c.fin := by simp only [Png.Chunk.fin]; omega
+    constructor
+    · rw [List.map_cons, List.flatMap_cons, List.filter_append, Png.filter_boxOf]
+      simp only [boxesFrom, hl, hf, ih1, Png.isM_chunkSeg]
+      rw [← h1]; rfl
+    · rw [List.map_cons, ser_cons, List.length_append, hl, ← Nat.add_assoc, hf]; exact ih2
+
+/-- **png_boxmap_c2pa_exact** (implementation, all byte lists): (a) every caBX chunk has a
+C2PA box over exactly its bytes; (b) a box flagged C2PA is either the box of a caBX chunk, or
+— only when there is no caBX chunk at all — the zero-length excluded placeholder at the end of
+an IHDR chunk; (c) the only excluded boxes are zero-length C2PA placeholders. (With two caBX
+chunks both get a C2PA box, so "the C2PA box starts at the first caBX chunk" would be false.) -/
+theorem png_boxmap_c2pa_exact (b : Bytes) (l : List Box) (ps : List Png.Chunk)
+    (h : Png.boxMap b = some l) (hc : Png.chunks b = some ps) :
+    (∀ c ∈ ps, c.name = Png.caBX → (⟨"C2PA", c.start, c.length + 12, true, false⟩ : Box) ∈ l) ∧
+    (∀ x ∈ l, x.cai = true →
+      (∃ c ∈ ps, c.name = Png.caBX ∧ x = ⟨"C2PA", c.start, c.length + 12, true, false⟩) ∨
+      ((∀ c ∈ ps, c.name ≠ Png.caBX) ∧
+        ∃ c ∈ ps, c.name = Png.IHDR ∧ x = ⟨"C2PA", c.fin, 0, true, true⟩)) ∧
+    (∀ x ∈ l, x.excl = true → x.len = 0 ∧ x.cai = true) := by
+  rw [Png.boxMap_eq b ps hc] at h
+  injection h with h; subst h
+  refine ⟨?_, ?_, ?_⟩
+  · intro c hcm hn
+    apply List.mem_cons_of_mem
+    exact List.mem_flatMap.2 ⟨c, hcm, by rw [Png.boxOf_caBX _ c hn]; exact List.mem_singleton.2 rfl⟩
+  · intro x hx hcai
+    rcases List.mem_cons.1 hx with rfl | hx
+    · cases hcai
+    · obtain ⟨c, hcm, hxc⟩ := List.mem_flatMap.1 hx
+      rcases Png.mem_boxOf_cai hxc hcai with ⟨h1, h2⟩ | ⟨h1, h2, h3⟩
+      · exact Or.inl ⟨c, hcm, h1, h2⟩
+      · exact Or.inr ⟨Png.any_caBX_false h1, c, hcm, h2, h3⟩
+  · intro x hx he
+    rcases List.mem_cons.1 hx with rfl | hx
+    · cases he
+    · obtain ⟨c, _, hxc⟩ := List.mem_flatMap.1 hx
+      exact Png.mem_boxOf_excl hxc he
+
+/-- **png_boxmap_vs_spec**: the specification map of the file's layer-A container
+(`Png.segs`) is the implementation's map without the placeholder, plus — when data follows
+IEND — the box of that trailing data. This is the whole difference between `boxmap_wf`
+(specification: covers everything) and `png_boxmap_partial` (implementation: covers up to the
+end of IEND). -/
+theorem png_boxmap_vs_spec (b : Bytes) (l : List Box) (c : List Seg) (ps : List Png.Chunk)
+    (h : Png.boxMap b = some l) (hc : Png.chunks b = some ps) (hs : Png.segs b = some c) :
+    boxesA c = l.filter (fun x => !x.excl) ++
+      (if (b.drop (Png.finOf ps)).isEmpty then []
+       else [⟨"trailing", Png.finOf ps, b.length - Png.finOf ps, false, false⟩]) := by
+  rw [Png.boxMap_eq b ps hc] at h
+  injection h with h; subst h
+  unfold Png.segs at hs
+  rw [hc] at hs
+  injection hs with hs; subst hs
+  obtain ⟨ht, _, hf, _, h8⟩ := Png.chunks_tile b ps hc
+  obtain ⟨e1, e2⟩ := Png.chunkBoxes_spec b (ps.any (·.name == Png.caBX)) ps 8 _ ht
+  have hl8 : (b.take 8).length = 8 := by rw [List.length_take]; omega
+  unfold boxesA
+  rw [List.cons_append]
+  simp only [boxesFrom, hl8, Nat.zero_add]
+  rw [boxesFrom_append, e1, e2, List.filter_cons]
+  have hP : (!(⟨"PNGh", 0, 8, false, false⟩ : Box).excl) = true := rfl
+  rw [if_pos hP, List.cons_append]
+  have hT : boxesFrom (Png.finOf ps)
+      (if (b.drop (Png.finOf ps)).isEmpty then []
+       else [(⟨.media, "trailing", b.drop (Png.finOf ps)⟩ : Seg)]) =
+      (if (b.drop (Png.finOf ps)).isEmpty then []
+       else [⟨"trailing", Png.finOf ps, b.length - Png.finOf ps, false, false⟩]) := by
+    by_cases he : (b.drop (Png.finOf ps)).isEmpty = true
+    · simp [he, boxesFrom]
+    · simp only [he]; simp [boxesFrom, isM]
+  rw [hT]
+  rfl
+
+/-! ## the implementation: sidecar (`.c2pa`) -/
+
+/-- The sidecar map is a single empty C2PA box: the whole file is the manifest container, so
+there is nothing to cover. -/
+theorem sidecar_boxmap (b : Bytes) : Sidecar.boxMap b = some [⟨"C2PA", 0, 0, true, false⟩] := rfl
+
+/-! ## data-hash side (layer A) -/
+
+/-- Data-hash side of the statement, layer A: the Cai region of a written asset is inside the
+file (restated from the C08 development; the `Other` regions are in `locations_wf`). -/
 theorem cai_region_inside (F : Fmt) (c : List Seg) (s : Bytes) :
     caiOff F c + (F.wrap s).length ≤ (ser (writeA F c s)).length := by
   rw [ser_writeA]; simp only [List.length_append, caiOff, offAt]; omega
+
+/-! ## data-hash side, implementation: `Png.locations` -/
+
+/-- The three regions of `locA off len total` with `off + len ≤ total`: the Cai region is
+inside `[0, total)`, the two Other regions do not meet it, and the three tile `[0, total)`. -/
+theorem locA_wf (off len total : Nat) (h : off + len ≤ total) :
+    ∀ x ∈ locA off len total, x.off + x.len ≤ total ∧
+      (x.cai = false → x.off + x.len ≤ off ∨ off + len ≤ x.off) := by
+  intro x hx
+  simp only [locA, List.mem_cons, List.not_mem_nil, or_false] at hx
+  rcases hx with rfl | rfl | rfl
+  · exact ⟨h, fun h' => by cases h'⟩
+  · exact ⟨by simp; omega, fun _ => Or.inl (by simp)⟩
+  · exact ⟨by simp; omega, fun _ => Or.inr (by simp)⟩
+
+theorem Png.mem_of_find {ps : List Png.Chunk} {c : Png.Chunk} {n : Bytes}
+    (h : ps.find? (·.name == n) = some c) : c ∈ ps ∧ c.name = n := by
+  have h1 := List.mem_of_find?_eq_some h
+  have h2 := List.find?_some h
+  exact ⟨h1, by simpa using h2⟩
+
+/-- **The manifest region reported for data hashing by the PNG handler** (any file, with or
+without a manifest): the regions are `locA off len total` with `off + len ≤ total`, hence
+(by `locA_wf`) the manifest region lies within `total` and overlaps no Other region. With a
+caBX chunk, `total` is the file length and the region is that chunk; without one, the handler
+reports the *hypothetical* 12-byte container after IHDR in a file 12 bytes longer
+(`total = |b| + 12`, see `Png.locations_fresh` in `Lemmas/C07PngRefine.lean`: these are the
+regions of the asset after embedding an empty store). -/
+theorem png_locations_wf (b : Bytes) (l : List Loc) (ps : List Png.Chunk)
+    (h : Png.locations b = some l) (hc : Png.chunks b = some ps) :
+    (∃ c ∈ ps, c.name = Png.caBX ∧ l = locA c.start (c.length + 12) b.length ∧
+        c.start + (c.length + 12) ≤ b.length) ∨
+    ((∀ c ∈ ps, c.name ≠ Png.caBX) ∧ ∃ ih ∈ ps, ih.name = Png.IHDR ∧
+        l = locA ih.fin 12 (b.length + 12) ∧ ih.fin + 12 ≤ b.length + 12) := by
+  obtain ⟨ht, _, _, _, _⟩ := Png.chunks_tile b ps hc
+  have hin := Png.mem_chunks_inside b ps 8 _ ht
+  unfold Png.locations at h
+  rw [hc] at h
+  simp only at h
+  cases hcai : Png.firstCai ps with
+  | some c =>
+    rw [hcai] at h
+    injection h with h
+    obtain ⟨hm, hn⟩ := Png.mem_of_find hcai
+    have := hin c hm
+    exact Or.inl ⟨c, hm, hn, h.symm, by unfold Png.Chunk.fin at this; omega⟩
+  | none =>
+    rw [hcai] at h
+    have hno : ∀ c ∈ ps, c.name ≠ Png.caBX := by
+      intro c hm hn
+      have := List.find?_eq_none.1 hcai c hm
+      simp [hn] at this
+    cases hih : Png.firstIhdr ps with
+    | none => rw [hih] at h; cases h
+    | some ih =>
+      rw [hih] at h
+      injection h with h
+      obtain ⟨hm, hn⟩ := Png.mem_of_find hih
+      have := hin ih hm
+      exact Or.inr ⟨hno, ih, hm, hn, h.symm, by omega⟩
+
+/-- The sidecar handler reports no regions. -/
+theorem sidecar_locations_nil (b : Bytes) : Sidecar.locations b = some [] := rfl
 
 /-! ### non-vacuity -/
 
 example : boxesA [⟨.header, "h", [1, 2]⟩, ⟨.manifest, "C2PA", [7, 9, 9]⟩, ⟨.media, "m", [3]⟩]
     = [⟨"h", 0, 2, false, false⟩, ⟨"C2PA", 2, 3, true, false⟩, ⟨"m", 5, 1, false, false⟩] := by decide
+
+/-- `Png.boxMap` on a PNG without caBX and without trailing data: the placeholder follows
+IHDR, and the four boxes tile the whole 32-byte file. -/
+def exPngPlain : Bytes := Png.sig ++ Png.mkChunk Png.IHDR [] ++ Png.mkChunk Png.IEND []
+set_option maxRecDepth 8192 in
+theorem exPngPlain_eq : exPngPlain =
+    [137, 80, 78, 71, 13, 10, 26, 10, 0, 0, 0, 0, 73, 72, 68, 82, 168, 161, 174, 10,
+     0, 0, 0, 0, 73, 69, 78, 68, 174, 66, 96, 130] := by decide
+example : Png.boxMap exPngPlain = some
+    [⟨"PNGh", 0, 8, false, false⟩, ⟨"IHDR", 8, 12, false, false⟩,
+     ⟨"C2PA", 20, 0, true, true⟩, ⟨"IEND", 20, 12, false, false⟩] := by
+  rw [exPngPlain_eq]; decide
+example : exPngPlain.drop 32 = [] := by rw [exPngPlain_eq]; decide
+
+/-- `Png.boxMap` on a PNG with a caBX chunk (3-byte store): no placeholder. -/
+def exPngCai : Bytes :=
+  Png.sig ++ Png.mkChunk Png.IHDR [] ++ Png.mkChunk Png.caBX [1, 2, 3] ++ Png.mkChunk Png.IEND []
+set_option maxRecDepth 8192 in
+theorem exPngCai_eq : exPngCai =
+    [137, 80, 78, 71, 13, 10, 26, 10, 0, 0, 0, 0, 73, 72, 68, 82, 168, 161, 174, 10,
+     0, 0, 0, 3, 99, 97, 66, 88, 1, 2, 3, 98, 237, 32, 146,
+     0, 0, 0, 0, 73, 69, 78, 68, 174, 66, 96, 130] := by decide
+example : Png.boxMap exPngCai = some
+    [⟨"PNGh", 0, 8, false, false⟩, ⟨"IHDR", 8, 12, false, false⟩,
+     ⟨"C2PA", 20, 15, true, false⟩, ⟨"IEND", 35, 12, false, false⟩] := by
+  rw [exPngCai_eq]; decide
+
+/-- Two caBX chunks both get a C2PA box (why `png_boxmap_c2pa_exact` is stated per chunk). -/
+def exPngTwoCai : Bytes :=
+  Png.sig ++ Png.mkChunk Png.IHDR [] ++ Png.mkChunk Png.caBX [1] ++ Png.mkChunk Png.caBX []
+    ++ Png.mkChunk Png.IEND []
+set_option maxRecDepth 8192 in
+theorem exPngTwoCai_eq : exPngTwoCai =
+    [137, 80, 78, 71, 13, 10, 26, 10, 0, 0, 0, 0, 73, 72, 68, 82, 168, 161, 174, 10,
+     0, 0, 0, 1, 99, 97, 66, 88, 1, 237, 81, 212, 130,
+     0, 0, 0, 0, 99, 97, 66, 88, 230, 61, 210, 167,
+     0, 0, 0, 0, 73, 69, 78, 68, 174, 66, 96, 130] := by decide
+example : Png.boxMap exPngTwoCai = some
+    [⟨"PNGh", 0, 8, false, false⟩, ⟨"IHDR", 8, 12, false, false⟩,
+     ⟨"C2PA", 20, 13, true, false⟩, ⟨"C2PA", 33, 12, true, false⟩,
+     ⟨"IEND", 45, 12, false, false⟩] := by
+  rw [exPngTwoCai_eq]; decide
+
+/-- The witness has 33 bytes, its map ends at 32, and the specification map has the extra box. -/
+example : pngTrailingWitness.length = 33 := by rw [pngTrailingWitness_eq]; decide
+example : (Png.segs pngTrailingWitness).map boxesA = some
+    [⟨"PNGh", 0, 8, false, false⟩, ⟨"IHDR", 8, 12, false, false⟩,
+     ⟨"IEND", 20, 12, false, false⟩, ⟨"trailing", 32, 1, false, false⟩] := by
+  rw [pngTrailingWitness_eq]; decide
+
+/-- Not a PNG: no map, the `png_boxmap_*` hypotheses are not met. -/
+example : Png.boxMap [1, 2, 3] = none := by decide
 
 end C2pa.C07
